@@ -240,6 +240,12 @@ func (r *rateLimiter) DoAcquire(upstream string, acquireRequest *proxyv1alpha1.R
 		return nil, fmt.Errorf("limit store for upstream %s upstream shard %v not found", upstream, shardId)
 	}
 
+	// the in-flight count recorded below is only reclaimed when its instance times out: an instance that
+	// acquires without (or after the expiry of) its heartbeats must be known to the cleanup as well
+	if len(acquireRequest.Spec.Instance) > 0 {
+		r.clientCache.Track(acquireRequest.Spec.Instance)
+	}
+
 	var resultLogs []string
 	var logging bool
 
